@@ -198,6 +198,38 @@ Theorem C03_meta_rewrite_inverse : forall m sh fsz nch fs chns ar sr,
 Proof. exact meta_inverse. Qed.
 Print Assumptions C03_meta_rewrite_inverse.
 
+(* ---- ... also when a .meta is already present in the target folder ----
+   In every case the metadata next to the reassembled binary equals the original, entry for entry:
+   kept untouched if the original's own .meta is still there (fileSizeBytes = size of the rebuilt file),
+   rewritten (original + original_meta) if a stale one with another size is there. *)
+Theorem C03_meta_existing_file : forall m sh fsz nch fs chns ar sr,
+  NoDup (keys m) ->
+  mget K_acq m = Some (MInts (nch - 1 :: ar)) ->
+  mget K_sns m = Some (MInts (nch - 1 :: sr)) ->
+  mget K_nsaved m = Some (MInt nch) ->
+  mget K_fsize m = Some (MInt fs) ->
+  mget K_subset m = Some (MStr (range_str (nch - 1))) ->
+  ~ In K_subset_orig (keys m) -> ~ In K_origmeta (keys m) -> ~ In K_shank (keys m) ->
+  exists m0, meta_shank_ap m sh chns fsz = Some m0 /\
+    meta_recon_at (Some m) m0 nch fs = Some m /\
+    (forall stale z, mget K_fsize stale = Some (MInt z) -> z <> fs ->
+       meta_recon_at (Some stale) m0 nch fs = Some (m ++ [(K_origmeta, MStr str_false)])) /\
+    meta_recon_at None m0 nch fs = Some (m ++ [(K_origmeta, MStr str_false)]).
+Proof.
+  intros m sh fsz nch fs chns ar sr Hnd HA HS HN HF HU H1 H2 H3.
+  destruct (meta_inverse m sh fsz nch fs chns ar sr Hnd HA HS HN HF HU H1 H2 H3) as (m0 & Hm0 & Hrec).
+  exists m0. split; [exact Hm0|]. split; [now apply meta_existing_kept|]. split; [|exact Hrec].
+  intros stale z Hz Hne. now rewrite (meta_existing_stale stale m0 nch fs z Hz Hne).
+Qed.
+Print Assumptions C03_meta_existing_file.
+
+(* ---- an existing shank folder blocks a second run unless overwrite is requested ---- *)
+Theorem C03_rerun_rule : forall existed overwrite,
+  process_call existed overwrite =
+  if existed then (if overwrite then (1, true) else (0, false)) else (1, true).
+Proof. intros [|] [|]; reflexivity. Qed.
+Print Assumptions C03_rerun_rule.
+
 (* ---- window sizes not above the hard-coded overlap (576) are outside every theorem above.
    The faithful model shows why: a multiple of 12 below the overlap on a shorter recording gives one
    window that is not recognised as the last one (nwin = 2), whose stop index W - 288 cuts the
